@@ -135,11 +135,11 @@ def do_call(o, c, spec, keep_args=None, env=None):
         return flat([z.data, z.zernike.coeffs])
     if name == 'psf':
         from optiland.psf import FFTPSF
-        p = FFTPSF(o, fld, w, num_rays=16, grid_size=64)
+        p = FFTPSF(o, fld, w, num_rays=16 + c['a'] % 9, grid_size=64 + c['b'] % 33)
         return flat([p.psf, p.strehl_ratio()])
     if name == 'mtf':
         from optiland.mtf import FFTMTF
-        m = FFTMTF(o, fields=[fld], wavelength=w, num_rays=16, grid_size=64)
+        m = FFTMTF(o, fields=[fld], wavelength=w, num_rays=16 + c['a'] % 9, grid_size=64 + c['b'] % 33)
         return flat(m.mtf)
     if name == 'geometric_mtf':
         from optiland.mtf import GeometricMTF
